@@ -123,7 +123,7 @@ def main():
         ],
         "checks": checks,
         "not_applicable": na,
-        "notes": "All checks execute the real library built from /repo's working tree; technique family: bounded exhaustive exploration (explicit-state / deviation-bounded enumeration). See DESIGN.md.",
+        "notes": "All checks execute the real library built from /repo's working tree; technique family: bounded exhaustive exploration (explicit-state / deviation-bounded enumeration). In every unit of every check the library's package-level variables (registered by a file the overlay adds to each package) are dumped before and after the unit; a difference is reported as a violation of that check's property. See DESIGN.md.",
     }
     json.dump(m, open("/verif/MANIFEST.json", "w"), indent=1)
     print("MANIFEST.json written:", len(checks), "checks,", len(na), "not claimed")
